@@ -6,7 +6,8 @@ ALPHA = ['(', ')', '&', '|', ':', '*', ' ', 'a', 'b', 'é', '€', '\U0001F600',
 NAMES = ['A', 'B', 'C', 'D1', 'Low Secret', 'é', 'naïve', 'T*', '日本', 'x y', '😀',
          # characters whose code point ends in the byte of a grammar character (space & ( ) * : |)
          'Sprzedaż', 'Ħa', 'Ĩ', 'aĩ', 'Īb', 'ĺ', 'aĠb', '在',
-         '*D', '**']      # a name may START with the broadcast character
+         '*D', '**',
+         'Low  Secret', 'a\tb', 'x \u00a0y']      # blanks INSIDE a name are part of it (two spaces, a tab, a no-break space)      # a name may START with the broadcast character
 WS = ['', ' ', '  ', '\t', ' ', '\n', ' ']
 
 
